@@ -678,6 +678,69 @@ func run(r *hk.Run) {
 	if wantDec {
 		decStreams()
 	}
+	// ---- C04 metamorphic stream on the implementation alone: the unordered part is a table lookup
+	// (last duplicate wins, unknown identifier octets are skipped, order is irrelevant)
+	if prop == "C04" {
+		sameDecode := func(kind string, m msgT, in, ref []byte) {
+			decCase("meta-"+kind, m, in, true)
+			a, _ := decodeMsg(m.msgInfo, in)
+			b, _ := decodeMsg(m.msgInfo, ref)
+			site := "nasMessage.Decode" + m.Name
+			if a.class != b.class || (a.class == "ok" && !eqMsg(a.msg, b.msg)) {
+				fail(r, "C04", site, kind, hk.Hex(in), "decodes differently from "+hk.Hex(ref)+" ("+a.class+" vs "+b.class+")")
+			}
+		}
+		cat := func(parts ...[]byte) []byte {
+			var o []byte
+			for _, x := range parts {
+				o = append(o, x...)
+			}
+			return o
+		}
+		for _, m := range msgs {
+			base := m.mandatory(r.Rng, true)
+			var opts []slot
+			used := map[int]bool{}
+			for _, s := range m.slots {
+				if !s.Mand {
+					opts = append(opts, s)
+					used[s.Iei] = true
+				}
+			}
+			unknown := byte(0)
+			for u := 1; u < 128; u++ {
+				if !used[u] {
+					unknown = byte(u)
+					break
+				}
+			}
+			pair := func(s slot) (lo, hi []byte) {
+				mn, mx, set := s.lenRange()
+				l1, l2 := mn, mx
+				if set != nil {
+					l1, l2 = set[0], set[len(set)-1]
+				} else if mx > mn+40 {
+					l2 = mn + 40
+				}
+				return s.validWire(r.Rng, l1), s.validWire(r.Rng, l2)
+			}
+			for i, s := range opts {
+				lo, hi := pair(s)
+				sameDecode("duplicate-not-last", m, cat(base, hi, lo), cat(base, lo))
+				sameDecode("duplicate-not-last", m, cat(base, lo, hi), cat(base, hi))
+				sameDecode("unknown-not-skipped", m, cat(base, []byte{unknown}, hi), cat(base, hi))
+				sameDecode("unknown-not-skipped", m, cat(base, lo, []byte{unknown}), cat(base, lo))
+				if i+1 < len(opts) {
+					lo2, _ := pair(opts[i+1])
+					sameDecode("order-matters", m, cat(base, lo2, hi), cat(base, hi, lo2))
+					if i+2 < len(opts) {
+						lo3, _ := pair(opts[i+2])
+						sameDecode("duplicate-not-last", m, cat(base, hi, lo2, lo3, lo), cat(base, lo2, lo3, lo))
+					}
+				}
+			}
+		}
+	}
 	// ---- encode cases (C02, C04, C05 oracles; correspondence of encode_def)
 	encCase := func(stream string, m msgT, mv []*ie, wf bool) {
 		obj := m.New()
